@@ -144,10 +144,13 @@ MODELS = [
         M(k=Q(S('red'), B('true')), j=Q(S('green')))]),
     ('nest_sav', List[List[Z.Sav]], [Z.Sav, Z.Sub], [
         Q(Q(M(a=I(1)), M(aa=I(2), b=S('y'))))]),
+    # ---- C17: dropping one key makes a value match two sibling classes
+    ('ambig', Z.AmbHolder, [Z.AmbHolder, Z.AmbB, Z.AmbS1, Z.AmbS2], [
+        M(b=M(a=I(1), x=I(2)), n=I(3), bs=Q(M(a=I(4), y=I(5))))]),
 ]
 CORE = {m[0] for m in MODELS if not m[0].startswith('trap_')
         and m[0] not in ('order', 'typed', 'req4', 'firm', 'extra_default',
-                         'job', 'nest_path', 'nest_enum', 'nest_sav')}
+                         'job', 'nest_path', 'nest_enum', 'nest_sav', 'ambig')}
 GROUP_C02 = (CORE - {'perm', 'versioned'}) | {'order', 'firm', 'extra_default',
                                             'job'}
 GROUP_C08 = CORE | {'order', 'job', 'extra_default'}
@@ -296,6 +299,7 @@ def _slices(pred, groups=(0, 1, 2)):
 
 G4 = (0, 1, 2, 3)      # with the ALIAS group (C01, C02, C04, C08)
 ALL_SLICES = _slices(lambda mi, bi, n: MODELS[mi][0] in CORE)
+C17_EXTRA_SLICES = _slices(lambda mi, bi, n: MODELS[mi][0] == 'ambig')
 QUICK_SLICES = _slices(lambda mi, bi, n: bi == 0 and MODELS[mi][0] in CORE)
 ALL_SLICES_A = _slices(lambda mi, bi, n: MODELS[mi][0] in CORE, G4)
 QUICK_SLICES_A = _slices(lambda mi, bi, n: bi == 0 and MODELS[mi][0] in CORE,
